@@ -112,6 +112,47 @@ CLAIMED.update({
         technique="TLA+ state machine enumerated by TLC, one implementation test per transition + TLC trace validation"),
 })
 
+CLAIMED.update({
+    "C08": dict(
+        text="CheckpointSpec.tla writes every operation of the property's table as its sequence of segments "
+             "(checkpoint_if_cancelled, cancel_shielded_checkpoint, bare yield, effect ...) in every state where it can "
+             "complete without waiting; TLC enumerates the matrix {operation} x {state} x {scope configuration: clean, "
+             "cancelled, cancelled behind a shield, ...} with the two clauses as invariants of the table itself (and "
+             "rejects deliberately wrong tables); every cell is executed on the real library on four loop "
+             "configurations (controlled loop stock / eager task factory, plain asyncio, uvloop) with the yield "
+             "observed exactly as the statement says, and TLC validates all recorded cells against P_Checkpoint "
+             "(Checkpointed, PreCancelledRaises, PreCancelledNoEffect, OnlyDocumentedExemption). All 20 itertools "
+             "functions over empty / singleton / longer synchronous inputs.",
+        design_ref="DESIGN.md section 3 (C08)",
+        note="the matrix is finite and covered exhaustively; pre-cancellation through cancel scopes only; no effect is "
+             "judged on the public projection; states where the operation must really wait belong to C03",
+        technique="TLA+ table of operations checked by TLC, every cell executed + TLC trace validation"),
+    "C14": dict(
+        text="AioThreads.tla: implementation-shaped model of run_sync_in_worker_thread / WorkerThread (caller tasks, "
+             "limiter with hand-over, shielded / abandon scopes, LIFO idle workers, reports via call_soon_threadsafe, "
+             "thread functions that return, raise, call back with from_thread.run / run_sync, or check_cancelled) "
+             "checked exhaustively by TLC against P_ThreadPool (Faithful, ContextVisible, BoundedRunning, "
+             "TokenAlwaysReturned, CancelDeferred, AbandonedReturnsPromptly, CheckCancelledReports, CallbacksRight); "
+             "TLC scenarios (gate releases, cancellations at quiescent points) replayed with real worker threads on "
+             "asyncio and uvloop, traces validated by T_ThreadPool.",
+        design_ref="DESIGN.md section 3 (C14)",
+        note="coarser binding: real threads are stepped at quiescent points; intra-step races are covered by the "
+             "model only; MAX_IDLE_TIME pruning not modelled",
+        technique="TLA+ model checking (TLC) + quiescent-step replay on real threads + TLC trace validation"),
+    "C17": dict(
+        text="TlsPump.tla models TLSStream._call_sslobject_method against an abstract SSL engine (handshake flights "
+             "for TLS 1.2 / 1.3, BIOs, records as head/tail cipher units, close_notify) and a transport with arbitrary "
+             "chunk boundaries and cut points; TLC checks P_Tls (Prefix, MaxBytes, CleanCloseIsEndOfStream, "
+             "TruncationIsBroken, TruncationIsEndOfStreamWhenNotStandard, PendingOutputFlushed, NoReadAfterEOF ...) "
+             "as ghost state; TLC-generated schedules (sends, receives, deliveries of any prefix, EOF anywhere) are "
+             "applied to two real TLSStream objects over an in-memory transport (abstract units mapped to bytes by "
+             "parsing the real record headers; single-byte chunking included) and the traces validated by T_Tls.",
+        design_ref="DESIGN.md section 3 (C17)",
+        note="OpenSSL is environment (the abstract engine is only compared with it); SSL contexts with "
+             "OP_IGNORE_UNEXPECTED_EOF cleared (what TLSStream.wrap creates); asyncio backend only",
+        technique="TLA+ model checking (TLC) + schedule replay over an in-memory transport + TLC trace validation"),
+})
+
 NOT_YET = "check not built yet in this round (planned, see DESIGN.md section 3)"
 
 def main():
